@@ -27,7 +27,7 @@ def model_exec(path):
         if op == "open":
             L.append("open 1 %d %d" % (a["path"], a["mode"])); mode = a["mode"]; lastio = None
         elif op in ("write", "read"):
-            if mode in (3, 4) and lastio and lastio != op:
+            if mode in (3, 4, 6) and lastio and lastio != op:
                 L.append("seek 1 0 1")           # ISO C: reposition between reading and writing an update stream
             L.append("write 1 %d %d" % (a["seed"], a["n"]) if op == "write" else "read 1 %d" % a["n"])
             lastio = op
@@ -55,8 +55,8 @@ def random_exec(rng, nops, big):
                 free = [p for p in (1, 2) if p not in busy]
                 if not free:
                     continue
-                p = rng.choice(free); m = rng.choice([1, 2, 3, 4])
-                L.append("new %d %d %d" % (o, p, m)); objs[o] = dict(open=True, path=p, mode=m, pos=0, lastio=None)
+                p = rng.choice(free); m = rng.choice([1, 2, 3, 4, 5, 6])
+                L.append("new %d %d %d" % (o, p, m)); objs[o] = dict(open=True, path=p, mode=m, pos=size[p] if m == 5 else 0, lastio=None)
                 if m in (2, 4): size[p] = 0
             continue
         o = rng.choice(sorted(objs)); h = objs[o]
@@ -66,8 +66,8 @@ def random_exec(rng, nops, big):
                 busy = {v["path"] for v in objs.values() if v.get("open")}
                 free = [p for p in (1, 2) if p not in busy]
                 if free:
-                    p = rng.choice(free); m = rng.choice([1, 2, 3, 4, 4])
-                    L.append("open %d %d %d" % (o, p, m)); objs[o] = dict(open=True, path=p, mode=m, pos=0, lastio=None)
+                    p = rng.choice(free); m = rng.choice([1, 2, 3, 4, 4, 5, 6])
+                    L.append("open %d %d %d" % (o, p, m)); objs[o] = dict(open=True, path=p, mode=m, pos=size[p] if m == 5 else 0, lastio=None)
                     if m in (2, 4): size[p] = 0
             elif r < 0.9:
                 L.append(rng.choice(["read %d 3", "write %d 1 3", "tell %d", "eof %d", "flush %d", "close %d", "seek %d 0 0", "withend %d", "print %d 5"]) % o)
@@ -77,11 +77,12 @@ def random_exec(rng, nops, big):
         p, m = h["path"], h["mode"]
         if r < 0.30 and m != 1:
             n = rng.choice(chunks)
-            if m in (3, 4) and h["lastio"] == "read": L.append("seek %d 0 1" % o)
+            if m in (3, 4, 6) and h["lastio"] == "read": L.append("seek %d 0 1" % o)
+            if m in (5, 6) and n: h["pos"] = size[p]                    # append modes: every write lands at the end
             L.append("write %d %d %d" % (o, rng.randint(1, 5), n)); h["pos"] += n; size[p] = max(size[p], h["pos"]); h["lastio"] = "write"
-        elif r < 0.55 and m != 2:
+        elif r < 0.55 and m not in (2, 5):
             n = rng.choice(chunks)
-            if m in (3, 4) and h["lastio"] == "write": L.append("seek %d 0 1" % o)
+            if m in (3, 4, 6) and h["lastio"] == "write": L.append("seek %d 0 1" % o)
             L.append("read %d %d" % (o, n)); h["pos"] = min(size[p], h["pos"] + n); h["lastio"] = "read"
         elif r < 0.70:
             org = rng.choice([0, 1, 2]); base = [0, h["pos"], size[p]][org]
@@ -89,8 +90,9 @@ def random_exec(rng, nops, big):
         elif r < 0.78:
             L.append(rng.choice(["tell %d", "eof %d", "flush %d"]) % o)
             if L[-1].startswith("flush"): h["lastio"] = None
-        elif r < 0.84 and m in (2, 4) and h["lastio"] != "read":
+        elif r < 0.84 and m in (2, 4, 5, 6) and h["lastio"] != "read":
             v = rng.choice([0, 7, 42, 1000, 65535, 2147483647])
+            if m in (5, 6): h["pos"] = size[p]
             L.append("print %d %d" % (o, v)); h["pos"] += len(str(v)) + 1; size[p] = max(size[p], h["pos"]); h["lastio"] = "write"
         elif r < 0.90:
             L.append("close %d" % o); h["open"] = False
@@ -101,8 +103,8 @@ def random_exec(rng, nops, big):
         elif r < 0.97:
             busy = {v["path"] for k, v in objs.items() if v.get("open") and k != o}
             free = [q for q in (1, 2) if q not in busy]
-            q = rng.choice(free); mm = rng.choice([1, 3, 4])
-            L.append("open %d %d %d" % (o, q, mm)); objs[o] = dict(open=True, path=q, mode=mm, pos=0, lastio=None)     # reopen without close
+            q = rng.choice(free); mm = rng.choice([1, 3, 4, 5, 6])
+            L.append("open %d %d %d" % (o, q, mm)); objs[o] = dict(open=True, path=q, mode=mm, pos=size[q] if mm == 5 else 0, lastio=None)     # reopen without close
             if mm == 4: size[q] = 0
         else:
             L.append("del %d" % o); del objs[o]
@@ -153,7 +155,7 @@ def main(tier, replay=None):
                        "exception, bytes read (or length+sum for large chunks), the C library's ftell/feof of every open stream and the "
                        "fopen/fclose counters; judged by TLC against FileStream; distinct = different history")
     chk.assumptions += ["seek targets lie within the file; a reposition separates reads from writes on update streams (ISO C rule)",
-                        "one handle per path at a time; binary modes rb, wb, r+b, w+b; printed integers are non-negative (signed text "
+                        "one handle per path at a time; binary modes rb, wb, r+b, w+b, ab, a+b (append: glibc's positions); printed integers are non-negative (signed text "
                         "round trips are C15's subject)"]
     camp.report()
     return chk.finish()
